@@ -191,6 +191,12 @@ fn abort_signature(stderr: &str, status: &std::process::ExitStatus) -> Option<St
     if status.code().is_some() {
         return None; // exited normally
     }
+    // a run that never comes back shows either as the watchdog's abort or — when the endless loop also
+    // allocates — as an allocation failure under the children's address-space limit (or a kill by the
+    // kernel): one violation class, one signature
+    if stderr.contains("NONUNWIND-PANIC hang:") || stderr.contains("memory allocation of") || format!("{}", status).contains("signal: 9") {
+        return Some("abort:runaway:_a_simulated_run_never_came_back_(endless_loop_or_unbounded_memory_growth_in_library_code)".to_string());
+    }
     let msg = stderr
         .lines()
         .filter(|l| l.starts_with("NONUNWIND-PANIC "))
@@ -206,8 +212,16 @@ fn abort_signature(stderr: &str, status: &std::process::ExitStatus) -> Option<St
 /// unsafe precondition, segfault): never executes scenario code itself.  Finds the first aborting
 /// run with single-threaded `scan` children, recovers its schedule from the crash journal,
 /// minimises it with `replay` children and reports it like any other violation.
+/// A child of the isolating supervisor: same executable, address space capped (a runaway run must
+/// fail fast instead of exhausting the machine's memory).
+fn capped_child(exe: &std::path::Path) -> std::process::Command {
+    let mut c = std::process::Command::new("sh");
+    c.arg("-c").arg("ulimit -v 6000000 2>/dev/null; exec \"$0\" \"$@\"").arg(exe);
+    c
+}
+
 fn cmd_isolate(scens: &[&dyn Scenario], args: &[String]) -> i32 {
-    use std::process::{Command, Stdio};
+    use std::process::Stdio;
     let Some(scen) = args.first().and_then(|n| find(scens, n)) else {
         eprintln!("HARNESS-ERROR unknown scenario");
         return 2;
@@ -222,7 +236,7 @@ fn cmd_isolate(scens: &[&dyn Scenario], args: &[String]) -> i32 {
     // 1. which run aborts?
     let children: Vec<_> = (0..workers)
         .map(|t| {
-            Command::new(&exe)
+            capped_child(&exe)
                 .args(["scan", scen.name(), "--seed", &seed.to_string(), "--runs", &runs.to_string()])
                 .args(["--stride", &workers.to_string(), "--offset", &t.to_string()])
                 .stdout(Stdio::piped())
@@ -253,7 +267,7 @@ fn cmd_isolate(scens: &[&dyn Scenario], args: &[String]) -> i32 {
     };
     // 2. its schedule, from the crash journal
     let jpath = replays.join(format!("{}-{}-{}.journal", scen.property(), scen.name(), idx));
-    let out = Command::new(&exe)
+    let out = capped_child(&exe)
         .args(["journal", scen.name(), "--seed", &seed.to_string(), "--index", &idx.to_string(), "--out"])
         .arg(&jpath)
         .output();
@@ -270,16 +284,20 @@ fn cmd_isolate(scens: &[&dyn Scenario], args: &[String]) -> i32 {
     let rseed = run_seed(seed, scen, idx);
     // 3. minimise with child processes
     let tmp = replays.join(format!("{}-{}-{}.candidate", scen.property(), scen.name(), rseed));
+    // a hang is recognised by the run watchdog: candidate schedules get a short limit (a run normally
+    // takes micro- to milliseconds) and fewer attempts, or minimising would cost minutes per candidate
+    let hang = sig.contains("runaway:");
+    let short = if hang { "5" } else { "60" };
     let mut test = |c: &Case| -> Option<Case> {
         let text = render_case(scen.property(), scen.name(), rseed, &sig, scen.ops(), c);
         std::fs::write(&tmp, text).ok()?;
-        let o = Command::new(&exe).arg("replay").arg(&tmp).output().ok()?;
+        let o = capped_child(&exe).arg("replay").arg(&tmp).env("VERIF_RUN_TIMEOUT_S", short).output().ok()?;
         match abort_signature(&String::from_utf8_lossy(&o.stderr), &o.status) {
             Some(s) if s == sig => Some(c.clone()),
             _ => None,
         }
     };
-    let (min_case, execs) = crate::batch::minimise_with(scen.ops(), &case, 400, &mut test);
+    let (min_case, execs) = crate::batch::minimise_with(scen.ops(), &case, if hang { 60 } else { 400 }, &mut test);
     let _ = std::fs::remove_file(&tmp);
     let path = replays.join(format!("{}-{}-{}.replay", scen.property(), scen.name(), rseed));
     let text = render_case(scen.property(), scen.name(), rseed, &sig, scen.ops(), &min_case);
@@ -288,7 +306,7 @@ fn cmd_isolate(scens: &[&dyn Scenario], args: &[String]) -> i32 {
         return 2;
     }
     // 4. the minimised file must abort the same way in a fresh process
-    let o = Command::new(&exe).arg("replay").arg(&path).output();
+    let o = capped_child(&exe).arg("replay").arg(&path).env("VERIF_RUN_TIMEOUT_S", short).output();
     let same = o
         .ok()
         .and_then(|o| abort_signature(&String::from_utf8_lossy(&o.stderr), &o.status))
